@@ -120,6 +120,16 @@ func runC02(c *core.Ctx, o Options) {
 	}
 	// ---- R3
 	checkTemplateRebuild(c, "R3")
+	decoderRules(c)
+	c.Explanation += " R4 also requires that nothing stores into the slice of pieces between the split and the per-entry decode (an entry shortened or replaced on the way silently loses the fields behind the cut)."
+	c.RuleMin = map[string]int{"R1": 28, "R2": 1, "R3": 4, "R4": 1, "R5": 2, "R6": 1, "R7": 3, "R8": 8}
+	c.MinObl = 30
+}
+
+// decoderRules are the rules R3–R8 of C02 about the decoder proper (the Item switch, the per-entry loop of groups, the value
+// extraction, the group separator and needles, the partition into entries, the item loops). C17 runs them as a premise: a field
+// counts as populated by parsing only if the parser puts each value of the message into its own field of its own entry.
+func decoderRules(c *core.Ctx) {
 	um := c.Func("fix/encoding", "state.unmarshal")
 	sk := c.Func("fix/encoding", "state.scanKeyValue")
 	sg := c.Func("fix/encoding", "splitGroup")
@@ -211,6 +221,27 @@ func runC02(c *core.Ctx, o Options) {
 			})
 		}
 		var bad []string
+		// the pieces reach the per-entry decode as splitGroup cut them: nothing stores into the slice of pieces (an entry that is
+		// shortened or replaced on the way loses the fields behind the cut — silently, parsing still reports success)
+		for _, f := range []*ssa.Function{um, lf} {
+			if f == nil || pieces == nil {
+				continue
+			}
+			want := ssa.Value(split)
+			if f == lf && lf != um {
+				want = pieces
+			}
+			an.AllInstrs(f, func(in ssa.Instruction) {
+				if st, ok := in.(*ssa.Store); ok {
+					if ia, ok := st.Addr.(*ssa.IndexAddr); ok && unload(ia.X) == want || ok && ia.X == want {
+						bad = append(bad, "a piece is overwritten after the split ("+an.Render(st.Addr)+" = "+an.Render(st.Val)+" at "+c.RelPos(st.Pos())+")")
+					}
+				}
+			})
+			if f == lf {
+				break
+			}
+		}
 		if asT == nil || addE == nil || split == nil || rec == nil {
 			bad = append(bad, "the group case lacks AsTemplate / AddEntry / splitGroup / the per-piece recursive call")
 		} else {
@@ -475,8 +506,6 @@ func runC02(c *core.Ctx, o Options) {
 	}
 	// ---- R7 whole-slice loops with error-only early exit
 	checkItemLoops(c, "R7")
-	c.RuleMin = map[string]int{"R1": 28, "R2": 1, "R3": 4, "R4": 1, "R5": 2, "R6": 1, "R7": 3, "R8": 8}
-	c.MinObl = 30
 }
 
 func unload(v ssa.Value) ssa.Value {
